@@ -304,6 +304,49 @@ def handle (line : String) : String :=
           | .error e => "PARSE-" ++ showErr e
         | _ => "bad-op"
       | _, _ => "bad-op"
+  | "resolveinto" :: h :: th :: ws => match decCps h, decCps th, pVfs ws with
+      -- `resolveImports(sheet, target)` with a target that holds rules already and has the href `th`
+      | some h, some th, some (vfs, ws) => match pSheet (ws.length + 1) ws with
+        | some (sh, ws2) => match pSheet (ws2.length + 1) ws2 with
+          | some (tg, []) =>
+            let a := parseSheet vfs h sh
+            match a.val with
+            | .ok loaded => shRes (resolveRules vfs .user th tg loaded) false
+            | .error e => "PARSE-" ++ showErr e
+          | _ => "bad-op"
+        | _ => "bad-op"
+      | _, _, _ => "bad-op"
+  | "flatspecinto" :: h :: th :: ws => match decCps h, decCps th, pVfs ws with
+      -- the specification of the same: the groups of the sheet added to the target one by one (`run`)
+      | some h, some th, some (vfs, ws) => match pSheet (ws.length + 1) ws with
+        | some (sh, ws2) => match pSheet (ws2.length + 1) ws2 with
+          | some (tg, []) =>
+            let a := parseSheet vfs h sh
+            match a.val with
+            | .ok loaded =>
+              let c := cascRules vfs .user th loaded
+              shRes ⟨(match c.val with
+                | .ok l => .ok (run tg l)
+                | .error e => .error e), c.log⟩ false
+            | .error e => "PARSE-" ++ showErr e
+          | _ => "bad-op"
+        | _ => "bad-op"
+      | _, _, _ => "bad-op"
+  | "flatspectree" :: h :: ws => match decCps h, pVfs ws with
+      -- the SPECIFICATION of flattening with kept imports (`flatSpec`) on a sheet given in its loaded state
+      | some h, some (vfs, ws) => match pSheet (ws.length + 1) ws with
+        | some (sh, []) => shRes (flatSpec vfs .user h sh) false
+        | _ => "bad-op"
+      | _, _ => "bad-op"
+  | "flatspec" :: h :: ws => match decCps h, pVfs ws with
+      | some h, some (vfs, ws) => match pSheet (ws.length + 1) ws with
+        | some (sh, []) =>
+          let a := parseSheet vfs h sh
+          match a.val with
+          | .ok loaded => shRes (flatSpec vfs .user h loaded) false ++ " | " ++ shFLog a.log
+          | .error e => "PARSE-" ++ showErr e
+        | _ => "bad-op"
+      | _, _ => "bad-op"
   | _ => "bad-op"
 
 def main : IO Unit := serve handle
